@@ -60,6 +60,15 @@ def shards(tier, seed):
         for t in [(4, 0, 0), (3, 0, 1), (1, 3, 0)]:
             sh += mk('morphism laws: d=4 grade blocks', spaces.cfg_pqr(*t), ('G',), ('G',), 8, kind='morph')
         sh += mk('grade(): S(4)', spaces.cfg_pqr(4, 0, 0), ('S', 3), ('B',), 8, kind='grade')
+    # cross-algebra histories: all signature orderings of one dimension in ONE process, forward and backward
+    for d in (1, 2):
+        for order in (spaces.sig(d), list(reversed(spaces.sig(d)))):
+            sh.append(dict(stratum='all signature orderings of d<=2 one after the other in one process (two orders), subsets <=2 blades',
+                           seq=[binprog.mk('seq', spaces.cfg_sig(s), ('S', 2), ('S', 2), 1, kind='bin')[0] for s in order]))
+    for d in (1, 2):
+        for order in (spaces.sig(d), list(reversed(spaces.sig(d)))):
+            sh.append(dict(stratum='all signature orderings of d<=2 one after the other in one process (two orders), subsets <=2 blades',
+                           seq=[binprog.mk('seq', spaces.cfg_sig(s), ('S', None), ('B',), 1, kind='unary')[0] for s in order]))
     return sh
 
 
@@ -69,6 +78,9 @@ def inv_sign(op, k):
 
 
 def run_shard(shard):
+    if 'seq' in shard:
+        from ..common import run_sequence
+        return run_sequence(run_shard, shard)
     res = Result()
     cfg = shard['cfg']
     alg = make_algebra(cfg)
